@@ -7,6 +7,7 @@ import ElaVerif.Gen.C23
   read-token stream of its `Deserialize` (`WireTokens.ofToks`); types whose stream still contains a
   dynamic dispatch outside a list element have no decodable schema and are answered `unmodelled`.
 
+    mpsnap <tx hex> …            → live <n> snap <n>
     ckpt <type> <hex> <digest>   → ok <consumed> <sha256d(re-encoding of the decoded value)> | err | unmodelled
 -/
 namespace ElaVerif.CheckpointDriver
@@ -20,7 +21,35 @@ def schemaOf (name : String) : Option Ty :=
     let ty := ofToks s.de; if hasFailOutsideList ty then none else some ty
   | none => none
 
+/-! mempool checkpoint (mempool/txpoolcheckpoint.go).  The pool embeds its checkpoint, so the pool's
+    transaction list *is* the live checkpoint's `txnList`. -/
+
+structure PoolCkpt where
+  height : Nat
+  /-- `txnList` (transactions as opaque encodings) -/
+  txnList : List String
+
+/-- `appendToTxPool` as far as the list is concerned: a transaction already in the pool is refused -/
+def appendToPool (pool : List String) (tx : String) : List String :=
+  if pool.contains tx then pool else pool ++ [tx]
+
+/-- `txPoolCheckpoint.Deserialize` into `fresh`: the height is stored in the checkpoint, every
+    transaction read is handed to the POOL (`c.txPool.appendToTxPool(tx)`); the checkpoint's own
+    `txnList` is never written. -/
+def deserializeInto (fresh : PoolCkpt) (pool : List String) (height : Nat) (txs : List String) :
+    PoolCkpt × List String :=
+  ({ fresh with height := height }, txs.foldl appendToPool pool)
+
+/-- `Snapshot()`: serialize the live checkpoint, deserialize the bytes into
+    `newTxPoolCheckpoint(c.txPool, …)` (an empty `txnList`, the same pool) and return that object. -/
+def snapshot (live : PoolCkpt) : PoolCkpt :=
+  (deserializeInto ⟨0, []⟩ live.txnList live.height live.txnList).1
+
+def stepMpSnap (txs : List String) : String :=
+  s!"live {txs.length} snap {(snapshot ⟨0, txs⟩).txnList.length}"
+
 def step : List String → String
+  | "mpsnap" :: txs => stepMpSnap txs
   | "ckpt" :: name :: hex :: _ =>
     match schemaOf name, hexBytes? hex with
     | some ty, some bs =>
